@@ -175,5 +175,10 @@ def check(run):
     for f in fx.fn(R + '::~basic_resolver', required=False):
         cs = [c for c in f.calls() if (q.callee_name(c) or '').endswith('basic_resolver::cancel')]
         run.check(bool(cs) and q.on_all_paths(f, cs), 'R4', 'dtor-aborts', f.name, f.loc(), 'destructor does not call cancel()', 'destructor calls cancel()')
+    run.clause('R7 queue entries keep their own result when the queue shifts them: every hand-written copy/move member of the entry type transfers every field (completion time, error, addresses, handler)')
+    engines.special_members_cover(run, [R + '::result_t'])
+    rrec = fx.record(R + '::result_t', required=False)
+    if not rrec:
+        run.broke('basic_resolver::result_t not found (queue entry type renamed?)')
     run.floor('R4', 5)
     run.floor('R2k', 5)
